@@ -291,3 +291,214 @@ def loop_facts(cfg, head, body):
                 facts[b] = frozenset(acc)
                 changed = True
     return {b: (set(f) if f is not TOP else set()) for b, f in facts.items()}
+
+
+# ---------------------------------------------------------------------------------------------
+# effect summaries and loop progress
+
+PURE_STD_FREE = ("std::min", "std::max", "std::abs", "std::operator==", "std::operator!=", "std::operator<", "std::operator+", "std::move", "std::forward",
+                 "std::isnan", "std::isinf", "std::log", "std::exp", "std::sqrt", "std::pow", "std::fabs", "std::floor", "std::ceil", "std::get", "std::make_shared",
+                 "std::make_pair", "std::distance", "std::to_string", "std::find", "std::count")
+
+
+# non-const std members that only hand out access (a write through the result is seen at the assignment)
+NONMUTATING_STD = {"operator[]", "at", "begin", "end", "rbegin", "rend", "cbegin", "cend", "front", "back", "find", "data", "get", "operator*", "operator->",
+                   "lower_bound", "upper_bound", "equal_range", "c_str", "size", "empty", "count", "first", "second", "operator bool", "str", "good", "eof", "fail"}
+
+
+def _root_decl(n):
+    """the variable / field an lvalue expression is rooted at: ('v', id, name) | ('f', qname, name) | ('this',) | None"""
+    n = strip(n)
+    while n is not None:
+        k = n["k"]
+        if k == "DeclRefExpr":
+            return ("v", n["decl"]["id"], n["decl"]["name"])
+        if k == "MemberExpr":
+            if n["member"]["kind"] == "field":
+                if n["member"]["this"]:
+                    return ("f", n["member"]["qname"], n["member"]["name"])
+                n = strip(kids(n)[0])
+                continue
+            n = strip(kids(n)[0]) if kids(n) else None
+            continue
+        if k == "CXXThisExpr":
+            return ("this",)
+        if k in ("ArraySubscriptExpr",) or (k == "UnaryOperator" and n["op"] in ("*", "&")):
+            n = strip(kids(n)[0])
+            continue
+        if is_call(n) and "obj" in n:
+            nodes = {x["id"]: x for x in walk(n)}
+            n = strip(nodes[n["obj"]])
+            continue
+        return None
+    return None
+
+
+class Effects:
+    """may-write summaries of functions: set of roots written ('f', field) / ('this',) / ('p', index) / ('global',)"""
+
+    def __init__(self, fb, depth=3):
+        self.fb = fb
+        self.depth = depth
+        self.memo = {}
+
+    def call_effect(self, f, n, depth=None):
+        """roots (in the caller's frame) possibly written by call node n of function f"""
+        depth = self.depth if depth is None else depth
+        c = n["callee"]
+        out = set()
+        nodes = None
+
+        def node(i):
+            nonlocal nodes
+            if nodes is None:
+                nodes = {x["id"]: x for x in walk(n)}
+            return nodes[i]
+        targets = self.fb.targets(n) if c.get("inrepo") else []
+        if c.get("inrepo") and targets and depth > 0:
+            for t in targets:
+                s = self.summary(t, depth - 1)
+                for r in s:
+                    if r[0] == "this":
+                        if "obj" in n:
+                            rd = _root_decl(node(n["obj"]))
+                            out.add(rd if rd else ("unknown",))
+                        else:
+                            out.add(("this",))
+                    elif r[0] == "f":
+                        # field of the callee's object: a write to the caller's object expression
+                        if "obj" in n:
+                            rd = _root_decl(node(n["obj"]))
+                            out.add(rd if rd else ("unknown",))
+                        else:
+                            out.add(r)
+                    elif r[0] == "p":
+                        a = n.get("args", [])
+                        if r[1] < len(a):
+                            rd = _root_decl(node(a[r[1]]))
+                            if rd:
+                                out.add(rd)
+                    else:
+                        out.add(r)
+            return out
+        # no body available: const methods and known pure free functions write nothing reachable;
+        # non-const methods write their object; non-const reference parameters are written
+        if "obj" in n and not c.get("const") and not c.get("static") and c["via"] != "ctor" and not (not c.get("inrepo") and c["name"] in NONMUTATING_STD):
+            rd = _root_decl(node(n["obj"]))
+            out.add(rd if rd else ("unknown",))
+        pts = c["ptypes"]
+        for i, aid in enumerate(n.get("args", [])):
+            if i < len(pts) and pts[i].endswith("&") and not pts[i].endswith("&&") and not pts[i].startswith("const "):
+                rd = _root_decl(node(aid))
+                if rd:
+                    out.add(rd)
+        if c.get("inrepo") and not targets and not c.get("const") and c["via"] == "free":
+            out.add(("unknown",))
+        return out
+
+    def summary(self, fn, depth):
+        key = (fn.key, depth)
+        if key in self.memo:
+            return self.memo[key]
+        self.memo[key] = set()     # recursion guard
+        out = set()
+        pidx = {p["id"]: i for i, p in enumerate(fn.params)}
+        locals_ = set()
+        for n in walk(fn.body):
+            if n["k"] == "DeclStmt":
+                for d in n["decls"]:
+                    locals_.add(d["id"])
+
+        def add(rd):
+            if rd is None:
+                return
+            if rd[0] == "v":
+                if rd[1] in pidx:
+                    pt = fn.params[pidx[rd[1]]]["ty"]
+                    if (pt.endswith("&") and not pt.startswith("const ")) or pt.endswith("*"):
+                        out.add(("p", pidx[rd[1]]))
+                elif rd[1] not in locals_:
+                    out.add(("global",))
+            else:
+                out.add(rd)
+        for n in fn.all_nodes():
+            k = n["k"]
+            if k in ("BinaryOperator", "CompoundAssignOperator") and n.get("op", "").endswith("=") and n["op"] not in ("==", "!=", "<=", ">="):
+                add(_root_decl(kids(n)[0]))
+            elif k == "UnaryOperator" and n["op"] in ("++", "--"):
+                add(_root_decl(kids(n)[0]))
+            elif is_call(n):
+                for r in self.call_effect(fn, n, depth):
+                    add(r)
+        if fn.rec.get("ctor"):
+            out = {r for r in out if r[0] not in ("f", "this")} | set()
+        self.memo[key] = out
+        return out
+
+
+def block_effects(fn, cfg, b, eff, loop_locals):
+    """roots written by the statements of block b that outlive one loop iteration"""
+    out = set()
+    for e in cfg.blocks[b]["el"]:
+        n = fn.nodes.get(e)
+        if n is None:
+            continue
+        k = n["k"]
+        roots = set()
+        if k in ("BinaryOperator", "CompoundAssignOperator") and n.get("op", "").endswith("=") and n["op"] not in ("==", "!=", "<=", ">="):
+            roots.add(_root_decl(kids(n)[0]))
+        elif k == "UnaryOperator" and n["op"] in ("++", "--"):
+            roots.add(_root_decl(kids(n)[0]))
+        elif is_call(n):
+            roots |= eff.call_effect(fn, n)
+        for r in roots:
+            if r is None:
+                continue
+            if r[0] == "v" and r[1] in loop_locals:
+                continue
+            out.add(r)
+    return out
+
+
+def loop_local_decls(fn, cfg, body):
+    """variables declared inside the loop body (they do not carry state round the back edge)"""
+    out = set()
+    for b in body:
+        for e in cfg.blocks[b]["el"]:
+            n = fn.nodes.get(e)
+            if n is not None and n["k"] == "DeclStmt":
+                for d in n["decls"]:
+                    out.add(d["id"])
+    return out
+
+
+def stuck_cycle(fn, cfg, head, body, eff):
+    """a cyclic path head -> head inside the loop on which nothing that outlives the iteration is written:
+    once taken it repeats forever (definite non-termination). Returns the path or None."""
+    ll = loop_local_decls(fn, cfg, body)
+    # the loop variable of a for-init lives outside the natural loop body; declared-in-body only
+    effect = {b: block_effects(fn, cfg, b, eff, ll) for b in body}
+    if effect[head]:
+        return None
+    prev = {}
+    q = []
+    for s in cfg.succ[head]:
+        if s in body and not effect.get(s) and s != head:
+            prev[s] = head
+            q.append(s)
+        elif s == head:
+            return [head, head]
+    while q:
+        x = q.pop(0)
+        for s in cfg.succ[x]:
+            if s == head:
+                path = [head, x]
+                while prev[x] != head:
+                    x = prev[x]
+                    path.append(x)
+                path.append(head)
+                return list(reversed(path))
+            if s in body and s not in prev and not effect.get(s):
+                prev[s] = x
+                q.append(s)
+    return None
